@@ -114,7 +114,7 @@ theorem fn_body (h w : Nat) (cross : Cell → Bool) (s : State F) (habs : FnAbs 
   intro r
   show (exec fuel fnBody st).ctl = .run ∧ (exec fuel fnBody st).ienv "y" = (i : Int) ∧
       FnInv h w s (exec fuel fnBody st) _
-  rw [fnBody, exec_seq_run hA hst, exec_seq_run hz hst]
+  rw [fnBody, exec_seq_to hA hst, exec_seq_to hz hst]
   simp only [nearStepF, habs.cross _ hin, cidx_nat, ← hinv.md]
   simp only [setS_same, hinv.frame.fa]
   by_cases c1 : notCross ((s.fa "data").getD (i * w + j) Fl.nan) (s.fa "barriers") = true
@@ -222,7 +222,7 @@ theorem findNearestPixel_refines (h w : Nat) (cross : Cell → Bool) (s : State 
   obtain ⟨z, hz⟩ := nc_scope "_is_not_crossable1$cell_value" "_is_not_crossable1$i" "_is_not_crossable1$ret0"
     (by decide) fuel { s with fenv := setS s.fenv "_is_not_crossable1$cell_value" dv } hs habs.sb
   simp only [Prog.run, findNearestPixel_body]
-  rw [exec_seq_run hA hs, exec_seq_run hz hs]
+  rw [exec_seq_to hA hs, exec_seq_to hz hs]
   simp only [findNearestF, hcr, setS_same]
   by_cases c1 : notCross dv (s.fa "barriers") = true
   · simp only [c1]
